@@ -39,6 +39,6 @@ func init() {
 		},
 		Real: distReal, Stub: distStub,
 		Assumes:    []string{"a share that stays in the distributor's main account is not a send and has no event (narrow reading of the README's 'one send operation')"},
-		FaultKinds: []string{"F-clock", "F-order"},
+		FaultKinds: []string{"F-clock", "F-order", "F-crash (every fifth run)", "F-simulate + F-rollback (every fifth run)", "F-export (every fifth run)"},
 	})
 }
